@@ -5,12 +5,14 @@ package main
 // Part 2: coverage of real decode trees (corpus, mutated corpus, forced decodes).
 
 import (
+	"context"
 	"fmt"
 	"os"
 	"sort"
 	"strings"
 	"time"
 
+	"github.com/wader/fq/pkg/bitio"
 	"github.com/wader/fq/pkg/decode"
 	"github.com/wader/fq/pkg/ranges"
 	"github.com/wader/fq/pkg/scalar"
@@ -363,6 +365,9 @@ func c04Main(args []string) {
 	if !run.IsWorker() {
 		c04Exhaustive(run)
 	}
+	if !run.IsWorker() {
+		c04Gendec(run)
+	}
 	jobs := treeJobs(run.Seed, run.Thorough(), run.Pick(6000, 1000000))
 	forEachTree(run, jobs, func(j treeJob, res decodeResult) {
 		if res.V == nil || res.Panic != nil {
@@ -391,4 +396,51 @@ func c04Main(args []string) {
 	run.Sample(map[string]any{"part": "coverage", "jobs": len(jobs), "first": jobs[0].Label, "last": jobs[len(jobs)-1].Label})
 	run.Count("coverage:jobs", int64(len(jobs)))
 	run.Finish()
+}
+
+// c04Gendec — part 3: decoders written against the public decode API. Random decoder programs (the generator
+// of C03's gendec: struct/array/seek/framed/limited/range/nested format/nested buffer, zero-length raw fields
+// after seeks, failing programs) are run through the real decode.Decode with gap filling and every gap-filled
+// scope of the result goes through the same coverage monitor as the corpus trees. No reference tree is needed:
+// the monitor only asks that leaves + gap fields tile each buffer.
+func c04Gendec(run *ev.Run) {
+	n := run.Pick(12000, 600000)
+	depth := run.Pick(3, 5)
+	for id := 0; id < n; id++ {
+		rng := gen.New(run.Seed).Fork(0xC04D0000 + uint64(id))
+		nbytes := rng.Intn(24)
+		data := rng.Bytes(nbytes)
+		gg := &gGen{rng: rng, max: run.Pick(30, 60)}
+		prog := gg.body(depth, int64(nbytes)*8, 0)
+		rootArr := rng.Intn(4) == 0
+		force := rng.Intn(3) == 0
+		real := &gReal{}
+		f := &decode.Format{Name: "groot", RootArray: rootArr, DecodeFn: func(d *decode.D) any { real.run(d, prog); return nil }}
+		grp := &decode.Group{Name: "groot", Formats: []*decode.Format{f}}
+		var v *decode.Value
+		pi := guardStack(func() {
+			v, _, _ = decode.Decode(context.Background(), bitio.NewBitReader(append([]byte(nil), data...), -1), grp, decode.Options{IsRoot: true, FillGaps: true, Force: force})
+		})
+		run.Eval(1)
+		run.Count("gendec:programs", 1)
+		if pi != nil || v == nil {
+			run.Count("gendec:no-tree-or-panic (C03/C06's subject)", 1)
+			continue
+		}
+		label := fmt.Sprintf("gendec{%s} on %x rootarray=%v force=%v", gBody(prog), data, rootArr, force)
+		scopes := gapFilledScopes(v)
+		for _, S := range scopes {
+			c04Coverage(run, label, S)
+		}
+		gaps := 0
+		for _, lf := range leavesOf(v) {
+			if isGap(lf) {
+				gaps++
+			}
+		}
+		run.Count("gendec:gap-fields", int64(gaps))
+		if gaps > 0 || len(scopes) > 1 {
+			run.Distinct("gendec:" + gBody(prog))
+		}
+	}
 }
